@@ -67,9 +67,11 @@ def gen_desc(rng, allow_enc_tag=False, maxbytes=None):
             v = rng.choice(ENC_VARIANTS) if rng.random() < 0.8 else v
             if v == b"\x02" and not allow_enc_tag:
                 v = b"\x00"
+        if total + 2 + len(v) > limit:
+            continue
         used.add(t)
         tags.append((t, v))
-        total += 2 + ln
+        total += 2 + len(v)
     return tags
 
 
